@@ -152,7 +152,7 @@ class PasqalDevice(cirq.devices.Device):
                     has_measurement_occurred = True
 
     def __repr__(self):
-        return f'pasqal.PasqalDevice(qubits={sorted(self.qubits)!r})'
+        return f'pasqal.PasqalDevice(qubits={list(self.qubits)!r})'
 
     def _value_equality_values_(self):
         return self.qubits
@@ -283,7 +283,7 @@ class PasqalVirtualDevice(PasqalDevice):
         return (
             'pasqal.PasqalVirtualDevice('
             f'control_radius={self.control_radius!r}, '
-            f'qubits={sorted(self.qubits)!r})'
+            f'qubits={list(self.qubits)!r})'
         )
 
     def _value_equality_values_(self) -> Any:
